@@ -49,6 +49,20 @@ fn mask_numbers(s: &str) -> String {
     out
 }
 
+fn mask_names(s: &str) -> String {
+    let mut out = String::new();
+    let mut in_tick = false;
+    for c in s.chars() {
+        if c == '`' {
+            in_tick = !in_tick;
+            out.push('`');
+        } else if !in_tick {
+            out.push(c);
+        }
+    }
+    out
+}
+
 /// What identifies a violation beyond its property: the violation class plus the features of
 /// the (minimised) case that make it fail. Two different defects get different signatures, so
 /// listing one never hides the other.
@@ -77,6 +91,14 @@ pub fn signature(case: &Case, class: &str, detail: &str) -> String {
         feats.push(format!("msg={}", crate::run::truncate(&msg, 80)));
         if d.len() > 1 {
             feats.push(format!("file={file}"));
+        }
+    }
+    if class.starts_with("outcome-differs") {
+        // Which error the failing side reports, with names and numbers masked.
+        if let Some(pos) = detail.find("Err(") {
+            let e = &detail[pos + 4..];
+            let e = e.split(" / build").next().unwrap_or(e);
+            feats.push(format!("err={}", crate::run::truncate(&mask_names(&mask_numbers(e)), 70)));
         }
     }
     let mentions_vftable_name = text
